@@ -17,7 +17,7 @@ from typing import Any, Dict, List, Optional, Tuple
 from harness import core
 
 GEN_SPECS = ["XsdRegex.tla", "XsdConstraints.tla", "XsdTrees.tla", "XsdGen.tla"]
-FEATURES = ["enc_meta", "enc_set_meta", "uni_esc", "esc_dollar", "multi", "multi_dotrep", "multi_negset", "multi_esc"]
+FEATURES = ["enc_meta", "enc_set_meta", "uni_esc", "esc_dollar", "lit_bs", "multi", "multi_dotrep", "multi_negset", "multi_esc"]
 
 # per (property, tier): how many cores of each family are taken (after stratified seeded shuffling), the wall-clock
 # budget of the R phase, and the value bounds.  The R phase stops taking new scenarios at its deadline; what was
@@ -109,7 +109,7 @@ def select(cores: Dict[str, Any], take: Dict[str, int], rnd: random.Random) -> L
         pos[f] += 1
         shs = [s for s in shapes if compatible(c, s)]
         sh = rnd.choice(shs)
-        sc = {"fam": c["fam"], "kind": c["kind"], "L": sh["L"], "pa": sh["pa"], "opt": sh["opt"], "atoms": c["atoms"], "pats": c["pats"], "alpha": c["alpha"], "feat": c["feat"], "id": len(out) + 1}
+        sc = {"fam": c["fam"], "kind": c["kind"], "L": sh["L"], "pa": sh["pa"], "opt": sh["opt"], "cpo": sh.get("cpo", 0), "atoms": c["atoms"], "pats": c["pats"], "alpha": c["alpha"], "feat": c["feat"], "id": len(out) + 1}
         out.append(sc)
     return out
 
@@ -147,7 +147,7 @@ def decode_value(t: List[Any]) -> Dict[str, Any]:
 
 
 def describe(sc: Dict[str, Any], o: Dict[str, Any]) -> Dict[str, Any]:
-    return {"fam": sc["fam"], "kind": sc["kind"], "L": sc["L"], "pa": sc["pa"], "opt": sc["opt"], "atoms": sc["atoms"], "patterns": [{"src": p["src"], "text": t} for p, t in zip(sc["pats"], o.get("ptexts", []))]}
+    return {"fam": sc["fam"], "kind": sc["kind"], "L": sc["L"], "pa": sc["pa"], "opt": sc["opt"], "cprim_declaration_order": o.get("cpo", 0), "atoms": sc["atoms"], "patterns": [{"src": p["src"], "text": t} for p, t in zip(sc["pats"], o.get("ptexts", []))]}
 
 
 def run_v(ck: core.Check, module: str, obs: List[Dict[str, Any]], max_states: int, parallel: int) -> Tuple[List[Tuple[Dict[str, Any], Dict[str, Any]]], List[str]]:
@@ -202,7 +202,7 @@ def to_violation(ck: core.Check, v: Dict[str, Any], o: Dict[str, Any]) -> None:
     key: Dict[str, Any] = {"clause": inv, "fam": sc["fam"], "kind": sc["kind"]}
     for f in FEATURES:  # structural fingerprint computed by the spec (XsdConstraints!ScenarioFeatures)
         key[f] = f in o.get("feat", [])
-    case: Dict[str, Any] = {"scenario": {**sc, "alpha": o.get("alpha", []), "feat": o.get("feat", []), "id": o.get("id", 0)}, "described": describe(sc, o)}
+    case: Dict[str, Any] = {"scenario": {**sc, "alpha": o.get("alpha", []), "feat": o.get("feat", []), "id": o.get("id", 0), "cpo": o.get("cpo", 0)}, "described": describe(sc, o)}
     observation: Dict[str, Any] = {"gen": o["gen"], "loads10": o["loads10"], "loads11": o["loads11"], "xsd_patterns": [core.from_cps(p) for p in o["xpats"]], "detail": o.get("detail", ""), "load_err": o.get("load_err", "")}
     nv = len(o["vals"])
     detail = "%s %s patterns=%s atoms=%s -> xsd=%s" % (sc["kind"], feats, o.get("ptexts"), [(a["src"], a["op"], a["c"], a["side"]) for a in sc["atoms"]], observation["xsd_patterns"])
